@@ -940,6 +940,22 @@ def _get_all_by_filters_from_db(context, filters):
     resources = filters.pop('resources', {})
     in_tree = filters.pop('in_tree', None)
 
+    # Resolve trait and resource class names before anything else, so that an
+    # unknown name is reported whatever the other filters happen to select.
+    required_traits = [
+        {
+            context.trait_cache.id_from_string(trait)
+            for trait in any_traits
+        }
+        for any_traits in required_traits
+    ]
+    forbidden_trait_ids = list(trait_obj.ids_from_names(
+        context, forbidden_traits).values()) if forbidden_traits else []
+    resources = {
+        context.rc_cache.id_from_string(rc_name): amount
+        for rc_name, amount in resources.items()
+    }
+
     rp = sa.alias(_RP_TBL, name="rp")
     root_rp = sa.alias(_RP_TBL, name="root_rp")
     parent_rp = sa.alias(_RP_TBL, name="parent_rp")
@@ -981,26 +997,15 @@ def _get_all_by_filters_from_db(context, filters):
         root_id = tree_ids.root_id
         query = query.where(rp.c.root_provider_id == root_id)
     if required_traits:
-        # translate trait names to trait internal IDs while keeping the nested
-        # structure
-        required_traits = [
-            {
-                context.trait_cache.id_from_string(trait)
-                for trait in any_traits
-            }
-            for any_traits in required_traits
-        ]
-
         rps_with_matching_traits = (
             res_ctx.provider_ids_matching_required_traits(
                 context, required_traits))
         if not rps_with_matching_traits:
             return []
         query = query.where(rp.c.id.in_(rps_with_matching_traits))
-    if forbidden_traits:
-        trait_map = trait_obj.ids_from_names(context, forbidden_traits)
+    if forbidden_trait_ids:
         trait_rps = res_ctx.get_provider_ids_having_any_trait(
-            context, trait_map.values())
+            context, forbidden_trait_ids)
         if trait_rps:
             query = query.where(~rp.c.id.in_(trait_rps))
     if member_of:
@@ -1014,8 +1019,7 @@ def _get_all_by_filters_from_db(context, filters):
             context, [forbidden_aggs])
         if rps_bad_aggs:
             query = query.where(~rp.c.id.in_(rps_bad_aggs))
-    for rc_name, amount in resources.items():
-        rc_id = context.rc_cache.id_from_string(rc_name)
+    for rc_id, amount in resources.items():
         rps_with_resource = res_ctx.get_providers_with_resource(
             context, rc_id, amount)
         rps_with_resource = (rp[0] for rp in rps_with_resource)
